@@ -47,6 +47,7 @@ func takesReflectType(fn *ssa.Function) bool {
 }
 
 func checkC18(c *Ctx) {
+	listingSessionFree(c, "R-session-independent")
 	c.R.Explanation = "Static necessary-condition checks on the three schema generators and on argument binding: guarded recursion over reflect.Type (call-graph cycles vs. seen-table / depth guards), " +
 		"coverage of the cases encoding/json distinguishes, field-name derivation, $ref name escaping/injectivity, path/anyOf mirroring and path copying in the nested generator, per-call binding targets."
 	c.R.NotDecided = "that a generated schema accepts the JSON encoding of every value of the type (needs executing the generators and a validator); resolution of every $ref in generated documents"
